@@ -380,6 +380,9 @@ func (fr *frame) visitInstr(instr ssa.Instruction) bool /* returned */ {
 		case Slice:
 			i := p.boundedIndex(idx, instr.Index.Type(), len(x))
 			fr.env[instr] = &x[i]
+			if isByteSlice(instr.X.Type()) {
+				p.noteElem(&x[i], x, i)
+			}
 		case *Value:
 			if x == nil {
 				panic(runtimePanic("nil pointer dereference (array index)"))
@@ -863,4 +866,27 @@ func (w *Worker) resetDirty() {
 		delete(w.inited, pkg)
 	}
 	w.dirty = map[*ssa.Package]bool{}
+}
+
+
+func isByteSlice(t types.Type) bool {
+	if s, ok := t.Underlying().(*types.Slice); ok {
+		if b, ok := s.Elem().Underlying().(*types.Basic); ok && b.Kind() == types.Uint8 {
+			return true
+		}
+	}
+	return false
+}
+
+type elemRef struct {
+	s Slice
+	i int
+}
+
+// noteElem remembers that ptr addresses element i of byte slice s (needed by unsafe.String/Slice).
+func (p *Path) noteElem(ptr *Value, s Slice, i int) {
+	if p.elemOrigin == nil {
+		p.elemOrigin = map[*Value]elemRef{}
+	}
+	p.elemOrigin[ptr] = elemRef{s, i}
 }
